@@ -9,9 +9,10 @@ open WuffsVerif.Gen.C16 WuffsVerif.Flate.Spec
 /-- A dynamic-Huffman block. -/
 theorem dynamic_blocksim (s : Bytes) (c : Cutter) (hc : c.OK) (hb : c.bits.bytes = s) (p : Nat)
     (hp : c.bits.pos = p + 3) (out : Bytes) (p1 : Nat) (out1 : Bytes) (hty : bitsLE s (p + 1) 2 = 2)
-    (hbody : blockBody s none 0 p out = .next p1 out1) (hcd : c.decodedLen = (out.size : Int))
+    (hbody : blockBody s none 0 p out = .next p1 out1) (k : Nat)
+    (hcd : c.decodedLen + (k : Int) = (out.size : Int)) (hc0 : 0 ≤ c.decodedLen)
     (hT : (out1.size : Int) < 2147483648) (isFirst : Bool) :
-    BlockSim s c p out p1 out1 (c.doDynamicHuffman isFirst) := by
+    BlockSim s k c p out p1 out1 (c.doDynamicHuffman isFirst) := by
   have e0 : ¬ ((2 : Nat) = 0) := by omega
   have e1 : ¬ ((2 : Nat) = 1) := by omega
   simp only [blockBody, hty, e0, e1, if_false, if_true] at hbody
@@ -56,7 +57,7 @@ theorem dynamic_blocksim (s : Bytes) (c : Cutter) (hc : c.OK) (hb : c.bits.bytes
         (by simp [Array.size_extract]; omega) minL hd.minLen (8 * s.size + 1) p1 out out1 (by rw [hll256]; exact hminL)
         (by show huffBlock hl hd minL hd.minLen bits5.bytes none 0 (8 * s.size + 1) bits5.pos out = .next p1 out1
             rw [y5, q5]; exact hbody)
-        hcd hT isFirst
+        k hcd hc0 hT isFirst
       rw [he] at k1 k2 htot ⊢
       obtain ⟨s1, s2, s3, s4, s5, s6⟩ := hsim
       refine ⟨by rw [k2, hb], k1, ?_, ?_, fun h => by rw [s5 h]; exact y5, s6⟩
